@@ -425,6 +425,21 @@ def table():
         pass
     T["reg:tsf"] = dict(fam="reg", conts=["nested", "numpy3D"], njobs=True,
                         make=lambda rs, nj: TimeSeriesForestRegressor(n_estimators=5, random_state=rs, n_jobs=(1 if nj is None else nj)))
+    # a RandomState INSTANCE as random_state: not for estimators that draw from it inside an apply-type method
+    # (BOSS / cBOSS / TDE tie-breaks in predict, Imputer(method="random") in transform: an instance is consumed by
+    # every call, which is sklearn's documented meaning of passing an instance) nor where the docstring says "int" only
+    for k, why in (("clf:boss", "draws-in-predict"), ("clf:cboss", "draws-in-predict"), ("clf:itde", "draws-in-predict"),
+                   ("clf:iboss", "draws-in-predict"), ("clf:column_ensemble", "member-draws-in-predict"),
+                   ("st:imputer_random", "draws-in-transform"), ("clf:stsf", "documented-int-only")):
+        if k in T:
+            T[k]["no_rsobj"] = why
+    # FINDING (findings/C12.md, 4): the time series forests hand `self.random_state` ITSELF to every tree; a
+    # RandomState instance is then shared by the parallel tree fits and consumed in thread-scheduling order, so with
+    # n_jobs > 1 the fitted forest depends on the schedule.  A thread race cannot be a deterministic known-finding
+    # witness: for these two the instance form is run with the sequential twins only (counted as skipped).
+    for k in ("clf:tsf", "reg:tsf"):
+        if k in T:
+            T[k]["rsobj_seq_only"] = "shared-generator-race-under-n_jobs>1"
     for k, e in T.items():
         e.setdefault("conts", ["Series"] if e["fam"] in ("fc", "st") else ["nested"])
         e.setdefault("njobs", False)
@@ -433,7 +448,38 @@ def table():
 
 METHODS = {"fc": ["predict"], "st": ["transform", "inverse_transform"], "pt": ["transform", "inverse_transform"],
            "clf": ["predict", "predict_proba"], "reg": ["predict"]}
-FH_ARGS = {"A": [1, 2, 3], "B": [2, 4]}
+FH_ARGS = {"A": [1, 2, 3], "B": [2, 4],          # out-of-sample, relative
+           "I": [-3, -2, -1, 0], "X": [-1, 0, 1, 2],  # in-sample and mixed, relative
+           "a": [1, 2, 3], "i": [-2, -1, 0], "x": [0, 1]}   # the same kinds as ABSOLUTE horizons (cutoff + steps)
+FH_OPTIONAL = ["A", "B", "I", "X", "a", "i", "x"]
+RS_FORMS = ["int", "zero", "npint", "rsobj"]
+
+
+def has_random_state(key):
+    """does the table entry pass its random_state on to some (sub-)estimator parameter?"""
+    e = table()[key]
+    if "rs" not in e:
+        try:
+            est = e["make"](987654, None)
+            e["rs"] = any(k.split("__")[-1] == "random_state" and isinstance(v, int) and v == 987654
+                          for k, v in est.get_params(deep=True).items())
+        except Exception:
+            e["rs"] = False
+    return e["rs"]
+
+
+def rs_value(c):
+    """the random_state handed to the constructor: the four seed forms of the reproducibility clause.
+    'rsobj' builds a NEW RandomState from the same seed on every call, so twins get equal-but-distinct instances."""
+    base = c["seed"] % 1000 + 1
+    form = c.get("rsform", "int")
+    if form == "zero":
+        return 0
+    if form == "npint":
+        return np.int64(base)
+    if form == "rsobj":
+        return np.random.RandomState(base)
+    return base
 
 
 def class_name(key, est=None):
@@ -462,11 +508,17 @@ def _train_data(c):
     if fam == "fc":
         y = lambda: mk_series(seed, n, ik, start)
 
+        cutoff = start + n - 1
+
         def fh(a):
+            if a.islower():
+                from sktime.forecasting.base import ForecastingHorizon
+                return lambda: (ForecastingHorizon(np.array([cutoff + v for v in FH_ARGS[a]], dtype="int64"), is_relative=False),)
             return lambda: (list(FH_ARGS[a]),)
         args = {"A": fh("A")}
         if e["mode"] == "o":
-            args["B"] = fh("B")
+            for a in FH_OPTIONAL:
+                args[a] = fh(a)
         return (lambda: (y(),)), {"fh": list(FH_ARGS["A"])}, args
     if fam == "st":
         kw = dict(outlier=e.get("outlier", False), nan=e.get("nan", False))
@@ -489,11 +541,10 @@ def _train_data(c):
 
 def _mk_est(c, inst):
     e = table()[c["est"]]
-    rs = c["seed"] % 1000 + 1
-    est = e["make"](rs, None)
+    est = e["make"](rs_value(c), None)
     if inst in ("j1", "j2", "j4"):
         nj = int(inst[1:])
-        est = e["make"](rs, nj)
+        est = e["make"](rs_value(c), nj)
         if "n_jobs" in est.get_params(deep=False):
             est.set_params(n_jobs=nj)
     return est
@@ -501,6 +552,29 @@ def _mk_est(c, inst):
 
 def _err(ex):
     return canon_err(ex).replace(":", ".")
+
+
+def est_state(est):
+    """what of a fitted FORECASTER a later call can depend on (the stored horizon apart): cutoff, remembered
+    series, fitted flag, fitted window length"""
+    out = {}
+    try:
+        out["cutoff"] = repr(getattr(est, "_cutoff", None))
+        y = getattr(est, "_y", None)
+        out["y"] = "-" if y is None else result_digest(y)      # values + labels (not the index class: an in-sample
+        # predict re-assigns `_y` through combine_first, which turns a RangeIndex into an equal Int64Index)
+        out["fitted"] = repr(getattr(est, "_is_fitted", None))
+        out["window_length_"] = repr(getattr(est, "window_length_", None))
+    except Exception:
+        pass
+    return out
+
+
+def state_flag(before, after):
+    for k in ("cutoff", "y", "fitted", "window_length_"):
+        if before.get(k) != after.get(k):
+            return "F:state-" + k
+    return "T"
 
 
 def _call(fn, *a, **k):
@@ -521,7 +595,7 @@ def run_seq(c):
 
     def fitted(inst):
         """a fitted copy: 'o' original; jN/j1/j2/j4/tw equal-parameter twins; pk = pickle round trip of 'o'"""
-        if inst in insts:
+        if inst in insts and inst != "fr":          # 'fr' = a FRESHLY fitted twin for this one call
             return insts[inst]
         if inst == "pk":
             o = fitted("o")
@@ -578,6 +652,7 @@ def run_seq(c):
             continue
         a = argmk[argid]()
         before = snap_args(a)
+        st0 = est_state(est) if e["fam"] == "fc" else {}
         try:
             if e["fam"] == "fc":
                 res = _call(getattr(est, method), a[0])
@@ -587,6 +662,8 @@ def run_seq(c):
         except Exception as ex:
             res, err = None, _err(ex)
         flag = args_flag(before, snap_args(a))
+        if flag == "T" and e["fam"] == "fc":
+            flag = state_flag(st0, est_state(est))
         if key not in firsts:
             if err is not None:
                 firsts[key] = (err, err, False)
@@ -752,12 +829,15 @@ def run_static(c):
         if (it["cls"], it["method"], it["attr"]) not in ALLOWED_WRITES:
             new.append(("static:%s.%s:writes-self.%s" % (it["cls"], it["method"], it["attr"]),
                         "%s.%s assigns self.%s (via %s, %s): state written inside an apply-type method" % (it["cls"], it["method"], it["attr"], it["via"], it["file"])))
+    for it in r.get("truthy", []):
+        new.append(("static:%s:%s:random_state-truthiness" % (it["file"], it["func"]),
+                    "`%s` in %s (%s): the integer seed 0 is falsy and would be treated as unseeded" % (it["expr"], it["func"], it["file"])))
     for it in r["parallel"]:
         new.append(("static:%s:%s:unordered-parallel-collection" % (it["file"], it["func"]), "%s in %s (%s)" % (it["what"], it["func"], it["file"])))
     _STATIC["new"] = sorted(set(new))
     _STATIC["counts"] = {k: (len(v) if isinstance(v, list) else v) for k, v in r.items()}
-    return "static files=%d classes=%d random=%d seedless=%d writes=%d parallel=%d new=%d" % (
-        r["files"], r["classes"], len(r["random"]), len(r["seedless"]), len(r["writes"]), len(r["parallel"]), len(_STATIC["new"]))
+    return "static files=%d classes=%d random=%d seedless=%d truthy=%d writes=%d parallel=%d new=%d" % (
+        r["files"], r["classes"], len(r["random"]), len(r["seedless"]), len(r.get("truthy", [])), len(r["writes"]), len(r["parallel"]), len(_STATIC["new"]))
 
 
 # =============================================================================== runner interface
@@ -853,7 +933,10 @@ def oracle(c, out):
         first = {}
         for inst, aid, flag, dig in calls:
             m = _MNAME[aid[0]]
-            if flag != "T":
+            if flag.startswith("F:state-"):
+                fails.append(("%s.%s:estimator-state-changed:%s" % (site, m, flag[8:]),
+                              "%s(%s) changed the fitted estimator's %s (copy %s)" % (m, aid[1:], flag[8:], inst)))
+            elif flag != "T":
                 fails.append(("%s.%s(%s):caller-data-modified:%s" % (site, m, c["cont"], flag[2:]), "%s changed the caller's argument (%s), copy %s" % (m, flag[2:], inst)))
             if dig.startswith("E.pickle"):
                 fails.append(("%s:pickle-round-trip-failed" % site, "pickle.loads(pickle.dumps(fitted estimator)) raised (%s)" % dig))
@@ -862,10 +945,13 @@ def oracle(c, out):
                 first[aid] = (inst, dig)
                 continue
             if dig != first[aid][1]:
-                kind = {"o": "repeat-differs"}.get(inst, "pickled-copy-differs" if inst == "pk" else "equal-params-twin-differs")
+                kind = {"o": "repeat-differs", "fr": "differs-from-freshly-fitted-twin"}.get(inst, "pickled-copy-differs" if inst == "pk" else "equal-params-twin-differs")
                 if first[aid][0] != "o" and inst == "o":
-                    kind = "pickled-copy-differs" if first[aid][0] == "pk" else "equal-params-twin-differs"
-                fails.append(("%s.%s:%s" % (site, m, kind), "%s(%s) on copy %s returned %s, first result (copy %s) was %s" % (m, aid[1:], inst, dig, first[aid][0], first[aid][1])))
+                    kind = {"pk": "pickled-copy-differs", "fr": "differs-from-freshly-fitted-twin"}.get(first[aid][0], "equal-params-twin-differs")
+                form = c.get("rsform", "int")
+                sfx = "" if form == "int" or kind == "repeat-differs" else ":random_state=" + form
+                fails.append(("%s.%s:%s%s" % (site, m, kind, sfx), "%s(%s) on copy %s returned %s, first result (copy %s) was %s%s" % (
+                    m, aid[1:], inst, dig, first[aid][0], first[aid][1], "" if "rsform" not in c else " [random_state form: %s]" % form)))
         return fails
     return _oracle_run(c, out)
 
@@ -880,6 +966,7 @@ def _oracle_run(c, out):
     seen = {}
     stored = None
     prev_cut = None
+    prev_state = None
     for op, (r, st) in zip(c["ops"], res):
         k = op[0]
         fitted, cut, n, fhs = st
@@ -892,6 +979,8 @@ def _oracle_run(c, out):
                 fails.append((site + ".update_predict:cutoff-not-restored", "cutoff %r before, %r after update_predict" % (prev_cut, cut)))
             if any(len(b) for b in [op[1]]):
                 seen = {}           # the remembered data grew: later forecasts may legitimately differ
+        if k == "pred" and prev_state is not None and (fitted, cut, n) != prev_state:
+            fails.append((site + ".predict:estimator-state-changed", "predict(fh=%r) changed (fitted, cutoff, len(y)) from %r to %r" % (op[1], prev_state, (fitted, cut, n))))
         if k == "pred":
             given = op[1]
             if given is not None and r[0] != "E" and c["mode"] == "o":
@@ -903,6 +992,7 @@ def _oracle_run(c, out):
                     fails.append((site + ".predict:repeat-differs", "predict(fh=%s) returned %r, earlier %r" % (eff, r, seen[key])))
                 seen.setdefault(key, r)
         prev_cut = cut
+        prev_state = (fitted, cut, n)
     return fails
 
 
@@ -926,6 +1016,12 @@ def features(c, out):
     if k == "seq":
         e = table()[c["est"]]
         f += ["est=" + c["est"], "fam=" + e["fam"], "cont=" + c["cont"]]
+        if "rsform" in c:
+            f.append("random_state=" + c["rsform"])
+            if e.get("no_rsobj"):
+                f.append("skipped=random_state-instance:" + e["no_rsobj"])
+            if e.get("rsobj_seq_only") and c["rsform"] == "rsobj":
+                f.append("skipped=random_state-instance-with-n_jobs>1:" + e["rsobj_seq_only"])
         fit, calls = _parse_seq(out)
         f.append("fitflag=" + fit)
         insts = set()
@@ -960,23 +1056,26 @@ def features(c, out):
 SLOW = {"clf:boss", "clf:muse", "clf:stsf", "pt:shapelets", "fc:red_forest", "clf:cboss", "clf:rise", "pt:fitted_param", "fc:tuned_grid_par", "fc:tuned", "fc:tuned_random"}
 
 
-def _seq_case(rng, key, cont, quick, variant=0):
+def _seq_case(rng, key, cont, quick, variant=0, rsform=None, compact=False):
     e = table()[key]
     fam = e["fam"]
     est = e["make"](1, None)
     methods = [m for m in METHODS[fam] if hasattr(est, m)]
     has_nj = "n_jobs" in est.get_params(deep=False)
+    slow = quick and key in SLOW
     if fam == "fc":
-        argids = ["A", "B"] if e["mode"] == "o" else ["A"]
+        # horizons out-of-sample, in-sample and mixed, relative and absolute, interleaved on ONE object
+        argids = list(FH_OPTIONAL) if e["mode"] == "o" else ["A"]
+        if (slow or compact) and len(argids) > 4:
+            argids = ["A"] + rng.sample(["I", "X", "i", "x"], 2) + [rng.choice(["B", "a"])]
     else:
         argids = ["a", "b"]
     pairs = [(m, a) for m in methods for a in argids]
     twins = (["jN", "j1", "j2", "j4"] if has_nj else ["jN"])
-    if quick and key in SLOW:
+    if slow or compact:
         twins = ["j2"] if has_nj else ["jN"]
-    calls = []
     # the original: every (method, argument) at least twice, interleaved
-    seq = pairs * 2 + [rng.choice(pairs) for _ in range(rng.randrange(1, 4))]
+    seq = pairs * (1 if compact else 2) + [rng.choice(pairs) for _ in range(rng.randrange(1, 4))]
     rng.shuffle(seq)
     calls = [["o", m, a] for m, a in seq]
     # twins and the pickled copy, inserted at random positions (the pickled copy after at least one call)
@@ -987,16 +1086,28 @@ def _seq_case(rng, key, cont, quick, variant=0):
     extra = []
     for tw in twins:
         picks = [rng.choice(fresh)]
-        if not (quick and key in SLOW):
+        if not (slow or compact):
             picks.append(rng.choice(pairs))
         for m, a in picks:
             extra.append([tw, m, a])
     for m, a in [rng.choice(fresh), rng.choice(pairs)]:
         extra.append(["pk", m, a])
+    # a FRESHLY fitted twin per call ('fr'): the reference no earlier call can have disturbed
+    if fam == "fc":
+        frp = list(pairs) if not (slow or compact) else rng.sample(pairs, min(2, len(pairs)))
+    else:
+        frp = [rng.choice(fresh)]
+    for m, a in frp:
+        extra.append(["fr", m, a])
     for x in extra:
         calls.insert(rng.randrange(1, len(calls) + 1), x)
     n = rng.choice([24, 28, 32]) if fam in ("fc", "st") else rng.choice([16, 20])
     c = {"kind": "seq", "est": key, "cont": cont, "seed": rng.randrange(1, 10 ** 6), "n": n, "calls": calls}
+    if has_random_state(key):
+        forms = [f for f in RS_FORMS if not (f == "rsobj" and e.get("no_rsobj"))]
+        c["rsform"] = rsform if rsform in forms else forms[variant % len(forms)] if not quick else rng.choice([f for f in forms if f != "zero"])
+        if c["rsform"] == "rsobj" and e.get("rsobj_seq_only"):
+            c["calls"] = [x for x in c["calls"] if x[0] not in ("j2", "j4")]
     if fam in ("fc", "st"):
         c["ikind"] = ["int64", "range"][(variant + rng.randrange(2)) % 2] if fam == "st" else ["int64", "range"][variant % 2]
         c["start"] = 0
@@ -1014,10 +1125,15 @@ def _history12(rng, core, mode, long=False):
     cutoff = y0[-1][0]
     maxh = 3 if opq else 5
     fhs = [M.rand_fh(rng, "oos", None, maxh) for _ in range(3)]
-    fit_fh = fhs[0] if (mode == "r" or opq or rng.random() < 0.6) else None
+    if not opq and mode == "o":
+        # in-sample and mixed horizons, relative and absolute, interleaved with the out-of-sample ones on ONE object
+        fhs = [fhs[0], M.rand_fh(rng, "oos", cutoff, maxh), M.rand_fh(rng, "ins", None, maxh), M.rand_fh(rng, "ins", cutoff, maxh),
+               M.rand_fh(rng, "mixed", None, maxh), M.rand_fh(rng, "mixed", cutoff, maxh)]
+    fit_fh = fhs[0] if (mode == "r" or opq or rng.random() < 0.6) else None      # fhs[0] is relative out-of-sample
     ops = [["fit", y0, fit_fh]]
     stored = fit_fh is not None
-    for _i in range(rng.randrange(3, 9 if long else 7)):
+    stored_oos = True
+    for _i in range(rng.randrange(3, 9 if long else 7) + (0 if opq or mode == "r" else 3)):
         r = rng.random()
         if r < 0.7:
             if mode == "r":
@@ -1028,6 +1144,7 @@ def _history12(rng, core, mode, long=False):
                     fh = rng.choice(fhs)
                 if fh is not None:
                     stored = True
+                    stored_oos = fh[0] == "r" and all(v > 0 for v in fh[1])
             ops.append(["pred", fh])
         elif r < 0.9 and not opq:
             # update_predict: only where the model's `updatePredict` (_BaseWindowForecaster) is the code that runs
@@ -1035,7 +1152,8 @@ def _history12(rng, core, mode, long=False):
             batch = M.stretch(rng, cutoff + 1, m, 0.0, opq, 0.0)
             explicit = [rng.choice(["s", "e"]), sorted(rng.sample(range(1, 4), rng.choice([1, 1, 2]))),
                         rng.randrange(1, 4), rng.randrange(1, 3), None, rng.random() < 0.5]
-            cv = explicit if (not stored or rng.random() < 0.5) else None
+            # the default splitter is built from the stored horizon: only asked for when that is relative out-of-sample
+            cv = explicit if (not stored or not stored_oos or rng.random() < 0.5) else None
             ops.append(["up", batch, cv, False])
         else:
             m = rng.randrange(1, 4)
@@ -1084,6 +1202,9 @@ def gen_cases(tier, rng):
             if e["fam"] == "fc" and quick:
                 # both index kinds for forecasters even in the quick tier (the adapters' index replacement needs Int64Index)
                 cases.append(_seq_case(rng, key, cont, quick, variant=1))
+        if quick and has_random_state(key):
+            # every estimator with a random_state is also fitted twice (and more) with the seed 0 in the quick tier
+            cases.append(_seq_case(rng, key, e["conts"][-1], quick, variant=0, rsform="zero", compact=True))
     cores = ["last", "mean:none", "mean:3", "probe:2", "probe:3"]
     for i in range(120 if quick else 2500):
         core = rng.choice(cores)
